@@ -168,6 +168,37 @@ static void part_wave(unsigned steps) {
     R.bound_done("wave: both models x 3 modulation frequencies x " + std::to_string(steps) + " steps, every queue entry against the configured sine");
 }
 
+// part=long : runs of a hundred thousand steps and more on one map, the records collected every 1000 steps, every 70000 steps, or only once at the end (output cadence 0 / larger
+//             than the run): every collection returns exactly the entries consumed since the last one, in order
+static void part_long(unsigned steps) {
+    for (int model = 0; model < 2; model++) for (unsigned every : {1000u, 70000u, 0u}) for (int noise = 0; noise < 2; noise++) {
+        Par q{8, 4, model, 0};
+        std::string kase = mcx::Desc()("part", "long")("model", MN[model])("steps", steps)("collect-every", every)("noise", noise).str();
+        if (!R.mine(kase)) continue;
+        if (R.out_of_time()) { R.not_completed = kase; return; }
+        set_size(8, 1);
+        auto in = mkps_shift(8, 12, 0, 0, {1.f}), out = mkps_shift(8, 12, 0, 0, {1.f});
+        Phys p = phys(in, 0);
+        auto dyn = mkdyn(in, out, q, p, noise ? 0.002f : 0.f, noise ? 0.01f : 0.f, 0.0174533f, 0.000888, steps);
+        std::vector<std::array<float, 2>> queue; { auto cp = dyn->_next_modulation; while (!cp.empty()) { queue.push_back({cp.front()[0], cp.front()[1]}); cp.pop(); } }
+        R.eval(kase, mcx::fnvs(kase), false);
+        const std::string key = std::string("C19/long-run/") + MN[model];
+        if (queue.size() != steps) { R.violate(key + "/queue-length", kase, std::to_string(queue.size())); continue; }
+        unsigned flushed = 0; bool ok = true;
+        for (unsigned k = 0; k < steps && ok; k++) {
+            dyn->apply();
+            if ((every && (k + 1) % every == 0) || k + 1 == steps) {
+                auto rec = dyn->getPastModulation();
+                bool same = rec.size() == k + 1 - flushed;
+                for (size_t i = 0; same && i < rec.size(); i++) same = memcmp(rec[i].data(), queue[flushed + i].data(), 8) == 0;
+                if (!same) { R.violate(key + "/records-lost-or-duplicated", kase, "collection after step " + std::to_string(k + 1) + " returned " + std::to_string(rec.size()) + " records, expected entries " + std::to_string(flushed) + ".." + std::to_string(k + 1)); ok = false; }
+                flushed = k + 1;
+            }
+        }
+    }
+    R.bound_done("long: both models x {modulation, modulation + noise} x " + std::to_string(steps) + " steps x collection every {1000, 70000, only at the end}");
+}
+
 int main(int argc, char** argv) {
     R.init(argc, argv, "C19", "C19_dynrf"); quiet();
     R.rule = "zero: one evaluation = one step of dynamic vs static map; proto: one evaluation = one call sequence replayed on a fresh real DynamicRFKickMap; distinct = FNV of case (+history/output)";
@@ -176,5 +207,6 @@ int main(int argc, char** argv) {
     part_zero(T ? std::vector<unsigned>{8, 16, 17, 32, 33} : std::vector<unsigned>{8, 9});
     part_proto(T ? std::vector<unsigned>{8, 16, 17} : std::vector<unsigned>{8, 9}, D ? 14 : 12, D ? 10 : 8);
     part_wave(D ? 3000000 : 300000);
+    part_long(D ? 600000 : 150000);
     return R.finish();
 }
